@@ -1,13 +1,8 @@
-#![allow(dead_code)]
 //! vcheck — property-based checks for irlserver/srtla_send (see /verif/DESIGN.md).
 //!
 //! usage: vcheck <ID> [--tier quick|thorough] [--replay FILE] [--seed N] [--workers N]
 
-#[macro_use]
-mod rt;
-mod engine;
-mod props;
-mod refmodel;
+use vcheck::{props, rt};
 
 use std::path::PathBuf;
 use std::sync::Mutex;
@@ -20,6 +15,11 @@ fn main() {
     if args.is_empty() {
         eprintln!("usage: vcheck <ID> [--tier quick|thorough] [--replay FILE] [--seed N]");
         std::process::exit(2);
+    }
+    if args[0] == "gen-corpus" {
+        let dir = args.get(1).cloned().unwrap_or_else(|| "/verif/harness/fuzz/corpus_seed".to_string());
+        vcheck::corpus::generate(std::path::Path::new(&dir));
+        return;
     }
     let id = args[0].to_uppercase();
     let mut tier = match std::env::var("VERIF_TIER").ok().as_deref() {
